@@ -632,6 +632,12 @@ func (x *Exec) selectField(s *State, base Val, steps []fstep, pos token.Pos) Val
 		if st.deref {
 			x.nilCheck(s, cur.S, pos, "nil pointer dereference (field "+st.name+")")
 			cur = s.loadField(st.owner, cur.S, "."+st.name, st.typ)
+			if _, isPtr := under(st.typ).(*types.Pointer); isPtr && len(x.eng.db.NonNil) > 0 {
+				if n, ok := types.Unalias(st.owner).(*types.Named); ok && n.Obj().Pkg() != nil &&
+					x.eng.db.NonNil[n.Obj().Pkg().Path()+"."+n.Obj().Name()+"."+st.name] {
+					s.assume(mkNot(mkEq(cur.S, "0")))
+				}
+			}
 			continue
 		}
 		idx, _ := fieldIndex(st.owner, st.name)
